@@ -124,9 +124,12 @@ func LoadEngine() (*Engine, error) {
 		}
 	}
 	// every contract must bind to a function
+	// (a contract that binds to nothing is not a load error: the checks of the properties that list
+	// the function report it, through runFunctions; checks of other properties are not affected)
+	e.unbound = map[string]string{}
 	for k, c := range e.cs.Funcs {
 		if _, ok := e.funcs[k]; !ok {
-			return e, fmt.Errorf("%s:%d: contract for %s does not bind to any function (contract no longer binds)", c.File, c.Line, k)
+			e.unbound[k] = fmt.Sprintf("%s:%d", c.File, c.Line)
 		}
 	}
 	return e, nil
